@@ -344,6 +344,8 @@ def patch():
             yp(L_ASTORE)
             dict.__setitem__(self, k, v)
 
+    global BYTHREAD
+    BYTHREAD = ByThreadDict
     a_init = P.AutoOptimizer.__init__
 
     def auto_init(self, *a, **kw):
@@ -493,6 +495,11 @@ def run_forced(job):
     programs = job["programs"]
     n = len(programs)
     target = make_target(job)   # a shared Reusable* object becomes object 0 of the reusable heap
+    auto_obj = target if isinstance(target, P.AutoOptimizer) else None
+    if job["target"] in ("preset:auto", "preset:auto-hq"):
+        # the tree function of both presets is the module instance auto_optimize.search
+        auto_obj = P.auto_optimize
+        auto_obj._hyperoptimizers_by_thread = BYTHREAD()      # this run starts with no per-thread optimizers
     ctl = Controller(n)
     CTL = ctl
     results = [[] for _ in range(n)]
@@ -580,15 +587,16 @@ def run_forced(job):
         cache = [[fpnum(k), REG.cons.get(id(v), 96)] for k, v in mem.items()]
         rheap.append([slots, cache])
     bythread = []
-    if isinstance(target, P.AutoOptimizer):
-        for k, v in dict.items(target._hyperoptimizers_by_thread):
+    if auto_obj is not None:
+        for k, v in dict.items(auto_obj._hyperoptimizers_by_thread):
             if isinstance(v, R.ReusableOptimizer):
                 x = [i for i, r in enumerate(REG.robjs) if r is v]
             else:
                 x = [REG.hnum(v)]
             bythread.append([tidmap.get(k, 94), x[0] if x else 93])
     hards = None
-    if isinstance(target, P.AutoOptimizer):
+    if auto_obj is not None:
+        target = auto_obj
         hards = []
         for (i, o, s) in POOL:
             nn = len(i)
